@@ -303,9 +303,9 @@ func c04Routes() []c04Route {
 	lst("marker", "list-v2", "list-type=2&start-after=@")
 	lst("marker", "list-v2-token", "list-type=2&continuation-token=@")
 	lst("marker", "list-versions", "versions=&key-marker=@")
-	lst("marker", "list-versions-vid", "versions=&key-marker="+c04KeyK+"&version-id-marker=@")
+	lst("versionIdMarker", "list-versions-vid", "versions=&key-marker="+c04KeyK+"&version-id-marker=@")
 	lst("marker", "list-uploads", "uploads=&key-marker=@")
-	lst("marker", "list-uploads-uid", "uploads=&key-marker="+c04KeyK+"&upload-id-marker=@")
+	lst("uploadIdMarker", "list-uploads-uid", "uploads=&key-marker="+c04KeyK+"&upload-id-marker=@")
 
 	// ---- admin ----
 	adm := func(kind, name string, build func(w *c04World, v string) s3c.Req) {
@@ -359,6 +359,8 @@ type c04Obs struct {
 	Code       string      `json:"code,omitempty"`
 	Changed    []c04Change `json:"changed"`
 	Disclosed  [][]string  `json:"disclosed"`
+	Resolved   [][]string  `json:"resolved"`
+	Sig        string      `json:"sig,omitempty"`
 	Diffs      []string    `json:"diffs,omitempty"`
 	Skipped    string      `json:"skipped,omitempty"`
 }
@@ -369,6 +371,7 @@ type c04TraceLine struct {
 	B         []string    `json:"b"`
 	Changed   []c04Change `json:"changed"`
 	Disclosed [][]string  `json:"disclosed"`
+	Resolved  [][]string  `json:"resolved"`
 }
 
 // concrete turns the bound labels of a case into concrete segments.
@@ -415,7 +418,7 @@ func c04Unescape(s string) string {
 
 // run executes one case against the world's gateway.
 func (w *c04World) run(cs c04Case, rt *c04Route) (obs c04Obs, err error) {
-	obs = c04Obs{Case: cs, Family: rt.Family, RouteClass: rt.Class, Changed: []c04Change{}, Disclosed: [][]string{}}
+	obs = c04Obs{Case: cs, Family: rt.Family, RouteClass: rt.Class, Changed: []c04Change{}, Disclosed: [][]string{}, Resolved: [][]string{}}
 	if obs.RouteClass == "" {
 		obs.RouteClass = rt.Name
 	}
@@ -540,6 +543,7 @@ func (w *c04World) run(cs c04Case, rt *c04Route) (obs c04Obs, err error) {
 		}
 	}
 	obs.Status, obs.Code = resp.Status, resp.Code
+	obs.Sig = c04Sig(resp)
 	if resp.Err != nil {
 		obs.Status = 0
 		obs.Code = "transport:" + resp.Err.Error()
@@ -644,8 +648,72 @@ func c04FixCanonical(r *s3c.Req) {
 }
 
 func (o *c04Obs) line() c04TraceLine {
-	return c04TraceLine{Kind: o.Case.Kind, Route: o.RouteClass, B: o.B, Changed: o.Changed, Disclosed: o.Disclosed}
+	rs := o.Resolved
+	if rs == nil {
+		rs = [][]string{}
+	}
+	return c04TraceLine{Kind: o.Case.Kind, Route: o.RouteClass, B: o.B, Changed: o.Changed, Disclosed: o.Disclosed, Resolved: rs}
 }
+
+// c04Sig is the shape of a reply: status, error code and how many entries of each
+// kind a listing carries (the values themselves - names, ids, dates - are left out).
+func c04Sig(resp *s3c.Resp) string {
+	sig := fmt.Sprintf("%d/%s", resp.Status, resp.Code)
+	for _, el := range []string{"<Upload>", "<Contents>", "<Version>", "<DeleteMarker>", "<CommonPrefixes>", "<Part>", "<Bucket>", "<IsTruncated>true"} {
+		if n := bytes.Count(resp.Body, []byte(el)); n > 0 {
+			sig += fmt.Sprintf(" %s=%d", el, n)
+		}
+	}
+	return sig
+}
+
+// c04Twins fills Resolved: an executed case that aims at a planted location and
+// whose reply has another shape than the reply to the same request with the names
+// bound to fresh ones (nothing there) depended on the existence of that location.
+// Only where a dot or empty segment precedes every surviving name: then no stored
+// name lies between the two values and a position / filter reading of the value
+// (markers, prefixes) gives the same answer for both.
+func c04Twins(obs []c04Obs) int {
+	key := func(o *c04Obs) string {
+		return fmt.Sprint(o.Case.Kind, "|", o.Case.Route, "|", o.Case.Spelling, "|", o.Case.Who, "|", o.Case.Sidecar, "|", strings.Join(o.Case.Segs, "\x00"))
+	}
+	fresh := map[string]*c04Obs{}
+	for i := range obs {
+		if o := &obs[i]; o.Skipped == "" && o.Case.Aim.T == "new" {
+			fresh[key(o)] = o
+		}
+	}
+	n := 0
+	for i := range obs {
+		o := &obs[i]
+		if o.Skipped != "" || o.Case.Aim.T == "new" || len(o.Case.Live) == 0 || o.Status == 0 {
+			continue
+		}
+		first := o.Case.Live[0]
+		for _, p := range o.Case.Live {
+			if p < first {
+				first = p
+			}
+		}
+		guarded := false
+		for _, sg := range o.Case.Segs[:first-1] {
+			if sg == "." || sg == ".." || sg == "" {
+				guarded = true
+			}
+		}
+		f := fresh[key(o)]
+		if !guarded || f == nil || f.Status == 0 {
+			continue
+		}
+		n++
+		if f.Sig != o.Sig {
+			o.Resolved = [][]string{o.Case.Aim.Loc}
+		}
+	}
+	return n
+}
+
+var c04MarkerKinds = map[string]bool{"prefix": true, "marker": true, "versionIdMarker": true, "uploadIdMarker": true}
 
 // c04Cases expands vectors into cases.
 func c04Cases(c *core.Ctx, vecs []c04Vec, routes []c04Route, sidecar bool, maxLen int) []c04Case {
@@ -656,7 +724,7 @@ func c04Cases(c *core.Ctx, vecs []c04Vec, routes []c04Route, sidecar bool, maxLe
 	var out []c04Case
 	n := 0
 	for _, v := range vecs {
-		if len(v.Segs) > maxLen {
+		if len(v.Segs) > maxLen && !(c04MarkerKinds[v.Kind] && len(v.Segs) <= maxLen+1 && maxLen >= 2 && maxLen < 4) {
 			continue
 		}
 		rs := byKind[v.Kind]
@@ -728,7 +796,7 @@ func c04Region(class string) (eff, target string) {
 }
 
 func C04(c *core.Ctx, replay string) {
-	c.Rule = "TLC enumerates, per client-controlled path-like parameter (11 kinds), every segment sequence up to the tier's depth over {name, '.', '..', empty} and binds the names to every planted target the raw join can reach (plus a fresh name); each (vector, aim) is sent in 9 spellings (raw, percent-encoded dots / slashes, double-encoded, mixed, backslash, NUL, fullwidth dot, and - for query parameters - given twice with a harmless value first) over the routes that carry the parameter, as the bucket owner and as root, against a gateway whose storage carries canaries in every area and beside the root. Non-trivial: a case whose literal value is not well-formed (dot / empty / NUL segments or a reserved name) and that the gateway answered 2xx or that changed or disclosed anything."
+	c.Rule = "TLC enumerates, per client-controlled path-like parameter (13 kinds; the id markers of the version and upload listings are kinds of their own, based where a direct look-up would join them), every segment sequence up to the tier's depth over {name, '.', '..', empty} and binds the names to every planted target the raw join can reach (plus a fresh name); each (vector, aim) is sent in 9 spellings (raw, percent-encoded dots / slashes, double-encoded, mixed, backslash, NUL, fullwidth dot, and - for query parameters - given twice with a harmless value first) over the routes that carry the parameter, as the bucket owner and as root, against a gateway whose storage carries canaries in every area and beside the root. Non-trivial: a case whose literal value is not well-formed (dot / empty / NUL segments or a reserved name) and that the gateway answered 2xx or that changed or disclosed anything. Existence differential: where a dot / empty segment precedes the names of the value, the reply to the value aimed at a planted location must have the same shape (status, code, number of listed entries) as the reply to the same value with fresh names - otherwise the value was resolved there (class resolve:<region>)."
 	c.Assumptions = []string{
 		"a location is 'changed' iff its type, content hash or user xattrs differ between byte-exact snapshots of the whole scratch tree (8 directory levels around the gateway root) taken before and after the request; timestamps are not compared",
 		"a reply 'discloses' a planted location iff it contains that location's content token, unique name or metadata token and the request did not",
@@ -736,7 +804,8 @@ func C04(c *core.Ctx, replay string) {
 		"other uploads of the SAME key count as inside the named object's storage (only other keys' uploads are 'other-upload')",
 	}
 	depth := c.Pick(2, 4)
-	res, err := tlc.Run(c.Scratch, tlc.Opts{Module: "ConfineVec", CfgText: fmt.Sprintf("SPECIFICATION Spec\nCONSTANTS Depth = %d\n Sidecar = TRUE\nINVARIANT Lemmas\n", depth),
+	deep := c.Pick(3, 4)
+	res, err := tlc.Run(c.Scratch, tlc.Opts{Module: "ConfineVec", CfgText: fmt.Sprintf("SPECIFICATION Spec\nCONSTANTS Depth = %d\n DeepDepth = %d\n Sidecar = TRUE\nINVARIANT Lemmas\n", depth, deep),
 		Workers: c.Pick(2, 4), Timeout: 10 * time.Minute})
 	if err != nil || !res.OK {
 		c.Inconclusive("ConfineVec: %v %v", err, res.MustOK())
@@ -744,7 +813,7 @@ func C04(c *core.Ctx, replay string) {
 	}
 	c.States += res.Distinct
 	c.Transitions += res.Generated
-	c.TLCRuns = append(c.TLCRuns, res.Summary("ConfineVec", fmt.Sprintf("Depth=%d Sidecar=TRUE, INVARIANT Lemmas", depth)))
+	c.TLCRuns = append(c.TLCRuns, res.Summary("ConfineVec", fmt.Sprintf("Depth=%d DeepDepth=%d (listing parameters) Sidecar=TRUE, INVARIANT Lemmas", depth, deep)))
 	vl, err1 := res.ReadNDJSON("vectors.ndjson")
 	pl, err2 := res.ReadNDJSON("plan.ndjson")
 	res.Cleanup()
@@ -890,6 +959,10 @@ func C04(c *core.Ctx, replay string) {
 	}
 	c.Logf("executed %d cases (gateway restarts %d, full rebuilds %d)", len(obs), stats.restarts, stats.rebuilds)
 
+	if replay == "" {
+		c.Logf("existence differential: %d cases compared with their fresh-name twin", c04Twins(obs))
+	}
+
 	// ---- TLC judges every distinct observation ----
 	uniq := map[string]int{}
 	var lines []any
@@ -931,9 +1004,14 @@ func C04(c *core.Ctx, replay string) {
 		{c04TraceLine{Kind: "key", Route: "put", B: []string{"n1", "n2"}, Changed: []c04Change{{Loc: c04cat(envL, "root", "A", "n1"), Eff: "create"}, {Loc: c04cat(envL, "root", "A", "n1", "n2"), Eff: "create"}}, Disclosed: [][]string{}}, ""},
 		{c04TraceLine{Kind: "key", Route: "put", B: []string{"..", "B", "n3"}, Changed: []c04Change{{Loc: c04cat(envL, "root", "B", "n3"), Eff: "create"}}, Disclosed: [][]string{}}, "create:other-bucket"},
 		{c04TraceLine{Kind: "uploadId", Route: "abort", B: []string{".."}, Changed: []c04Change{{Loc: c04cat(envL, "root", "A", ".sgwtmp", "multipart", "shaK2", "V"), Eff: "delete"}}, Disclosed: [][]string{}}, "delete:other-upload"},
+		{c04TraceLine{Kind: "uploadIdMarker", Route: "list-uploads", B: []string{"..", "cf"}, Changed: []c04Change{}, Disclosed: [][]string{}, Resolved: [][]string{c04cat(envL, "root", "A", ".sgwtmp", "multipart", "cf")}}, "resolve:other-upload"},
+		{c04TraceLine{Kind: "uploadIdMarker", Route: "list-uploads", B: []string{"n1"}, Changed: []c04Change{}, Disclosed: [][]string{}, Resolved: [][]string{c04cat(envL, "root", "A", ".sgwtmp", "multipart", "shaK", "U")}}, ""},
 	}
 	nReal := len(lines)
 	for _, st := range selfTest {
+		if st.l.Resolved == nil {
+			st.l.Resolved = [][]string{}
+		}
 		lines = append(lines, st.l)
 	}
 	classes := make([]string, len(lines))
